@@ -32,4 +32,4 @@ for r in rows: print("%5.1f%% %-32s lines %5d/%5d  functions %2d/%2d" % r)
 t = d["data"][0]["totals"]
 print("TOTAL lines %d/%d (%.1f%%), functions %d/%d" % (t["lines"]["covered"], t["lines"]["count"], t["lines"]["percent"], t["functions"]["covered"], t["functions"]["count"]))
 EOF
-rm -rf $OUT build/cov
+[ -n "${KEEP_COV:-}" ] || rm -rf $OUT build/cov
